@@ -879,7 +879,10 @@ class Machine:
             b = self.ev(e[3], env)
             return self.pipe(a, self.rv(b))
         if op == "<=>":
-            raise Unab("three-way comparison")
+            x, y = self.eval(e[2], env), self.eval(e[3], env)
+            if self.compare("<", x, y):
+                return Fraction(-1)
+            return Fraction(1) if self.compare(">", x, y) else Fraction(0)
         a, b = self.eval(e[2], env), self.eval(e[3], env)
         if op == "/" and self.int_division(e, a, b, env):
             a_, b_ = simp(a), simp(b)
@@ -1607,6 +1610,8 @@ def _clamp(M, v, lo, hi):
 
 def _cast(M, args, env, name):
     v = M.eval(args[0], env)
+    if is_int_type(name or "") and isinstance(v, float):
+        raise AbstractViolation("conversion of %s to an integer type" % v)
     if is_int_type(name or "") and is_num(v):
         q = simp(v)
         if isinstance(q, Fraction):
